@@ -250,7 +250,9 @@ def make_midpass_fault(h, base_name, nth, label, counter):
 
     P = _sys.modules["hdl21.elab.passes"]
 
-    base = getattr(P, base_name)
+    base = getattr(P, base_name, None)
+    if base is None:  # the library has no pass of that name (any more): nothing to interrupt
+        return None
     state = {"n": 0}
 
     class MidFault(base):
